@@ -49,8 +49,21 @@ def gen_templates():
     return True, out
 
 
+def gen_validators():
+    os.makedirs(os.path.join(vcheck.COQ, "gen"), exist_ok=True)
+    tmp = os.path.join(vcheck.WORK, "Validators.v.tmp")
+    if os.path.exists(tmp):
+        os.remove(tmp)
+    rc, out = vcheck.go_test("./internal/mode/static/nginx/config/validation/", "TestVerifGenValidators", {"VERIF_GEN_OUT": tmp}, 600)
+    if rc != 0 or not os.path.exists(tmp):
+        return False, out
+    _install(tmp, os.path.join(vcheck.COQ, "gen", "Validators.v"))
+    return True, out
+
+
 def gen_c03():
     """Both translators the C03/C04 checks rely on."""
     ok1, out1 = gen_directives()
     ok2, out2 = gen_templates()
-    return ok1 and ok2, out1 + out2
+    ok3, out3 = gen_validators()
+    return ok1 and ok2 and ok3, out1 + out2 + out3
